@@ -28,6 +28,14 @@
      finished by the server — no terminating chunk, fewer bytes than `Content-Length`, the connection
      closed — exactly because the handler aborts on EVERY copy error; "return normally on
      closed-connection-like errors" is refuted by a witness, at the level of observations and of bytes
+  I. the accept loop (`Proxy.Serve`): the classification table of the errors `Accept` returns; NO finite
+     sequence of errors that pass by themselves (EMFILE, ENFILE, EINTR, ECONNABORTED, ECONNRESET, time-outs)
+     ends the loop — every one is answered by a retry after 5 ms · 2^i capped at 1 s, the next connection is
+     served — exactly because the loop retries on `Temporary()`; "retry time-outs only" is refuted by a witness
+  J. the HTTP log mode is a parameter the relay ignores: the logger as a body wrapper is transparent in
+     every mode (same terminal condition, no invented byte, a regular body byte for byte); hence a torn
+     reply (and a torn upload) never reads back as complete under any mode, and the theorems of C and H
+     hold with the logger in the path; a snapshot that drops the read error is refuted by a witness
 
   Not in the model (observed by the correspondence runs only): panic-freedom of net/http and
   crypto/tls on hostile bytes, TCP delivery, the scheduler.
@@ -35,6 +43,7 @@
 import FwdVerif.Lemmas.C12
 import FwdVerif.Lemmas.C12Label
 import FwdVerif.Lemmas.C12Handler
+import FwdVerif.Lemmas.C12Accept
 
 namespace FwdVerif
 namespace C12
@@ -1338,6 +1347,314 @@ theorem c12_handler_returned_chunked_parses (pieces : List Bytes) (h : ∀ p ∈
 
 example : handlerBodyWire .chunked [[104, 105]] .abort = [50, 13, 10, 104, 105, 13, 10] ∧
     handlerBodyWire .chunked [[104, 105]] .returns = [50, 13, 10, 104, 105, 13, 10, 48, 13, 10, 13, 10] := by decide
+
+/-! ## I. the accept loop -/
+
+/-- THE TABLE: what each error says of itself, whether the condition passes by itself, and what the
+    unchanged `Serve` does with it in a fresh loop.  The errors that pass are exactly the ones retried. -/
+theorem c12_accept_classification_table (e : AcceptErr) :
+    (e.passes = true ↔ retryTemporary e.shape = true) ∧
+      ((e = .emfile ∨ e = .enfile ∨ e = .eintr ∨ e = .econnaborted ∨ e = .econnreset) →
+        e.shape = { netError := true, temporary := true, timeout := false, closed := false } ∧ acceptStep e = .retry 5) ∧
+      ((e = .deadline ∨ e = .etimedout) →
+        e.shape = { netError := true, temporary := true, timeout := true, closed := false } ∧ acceptStep e = .retry 5) ∧
+      (e = .closed → e.shape = { netError := true, temporary := false, timeout := false, closed := true } ∧ acceptStep e = .ret) ∧
+      (e = .einval → e.shape = { netError := true, temporary := false, timeout := false, closed := false } ∧ acceptStep e = .ret) ∧
+      (e = .plain → e.shape = { netError := false, temporary := false, timeout := false, closed := false } ∧ acceptStep e = .ret) := by
+  cases e <;> decide
+
+/-- THE CLAUSE: for every finite sequence of Accept errors that pass by themselves — descriptor exhaustion
+    of the process or the system, aborted or reset connections, interrupted calls, time-outs, in any order
+    and number — the loop is still accepting afterwards: each error was answered by a retry after a delay
+    between 5 ms and 1 s, no connection was lost, and the next client is served -/
+theorem c12_temporary_accept_errors_never_stop_serving (es : List AcceptErr) (h : ∀ e ∈ es, e.passes = true)
+    (st : AcceptState) (hst : st.returned = false) (hd : DelayOk st.delay) :
+    (acceptRun st (es.map .err)).1.returned = false ∧
+      (∀ o ∈ (acceptRun st (es.map .err)).2, ∃ d, o = .action (.retry d) ∧ 5 ≤ d ∧ d ≤ 1000) ∧
+      (acceptRun st (es.map .err ++ [.conn])).2.getLast? = some .served ∧
+      (acceptRun st (es.map .err ++ [.conn])).1.served = st.served + 1 := by
+  have hp : ∀ e ∈ es, retryTemporary e.shape = true := fun e he => ((c12_accept_classification_table e).1).mp (h e he)
+  obtain ⟨h1, h2, _, h4⟩ := acceptRunWith_retried retryTemporary es hp st hst hd
+  refine ⟨h1, h4, ?_⟩
+  have happ : ∀ (evs : List AcceptEv) (s : AcceptState),
+      acceptRunWith retryTemporary s (evs ++ [.conn]) =
+        ((acceptStepWith retryTemporary (acceptRunWith retryTemporary s evs).1 .conn).1,
+          (acceptRunWith retryTemporary s evs).2 ++ [(acceptStepWith retryTemporary (acceptRunWith retryTemporary s evs).1 .conn).2]) := by
+    intro evs
+    induction evs with
+    | nil => intro s; simp [acceptRunWith]
+    | cons ev evs ih => intro s; simp [acceptRunWith, ih]
+  unfold acceptRun
+  rw [happ, acceptStepWith_conn _ _ h1]
+  simp [h2]
+
+example : (∀ e ∈ [AcceptErr.emfile, .emfile, .enfile, .econnaborted, .eintr, .deadline], e.passes = true) ∧
+    (acceptRun {} ([AcceptErr.emfile, .emfile, .enfile, .econnaborted, .eintr, .deadline].map .err ++ [.conn])).2 =
+      [.action (.retry 5), .action (.retry 10), .action (.retry 20), .action (.retry 40), .action (.retry 80),
+        .action (.retry 160), .served] := by decide
+
+/-- the schedule: the delay before the `(i+1)`-th consecutive retry is 5 ms · 2^i, capped at 1 s; an
+    accepted connection starts it over -/
+theorem c12_accept_backoff_schedule (e : AcceptErr) (h : e.passes = true) (i : Nat) :
+    (acceptRun {} (List.replicate (i + 1) (.err e))).1.delay = min (5 * 2 ^ i) 1000 ∧
+      (acceptRun {} (List.replicate (i + 1) (.err e) ++ [.conn])).1.delay = 0 := by
+  have hp := ((c12_accept_classification_table e).1).mp h
+  have hd := acceptRunWith_replicate_delay retryTemporary e hp (i + 1) {} rfl
+  have hr := (acceptRunWith_retried retryTemporary (List.replicate (i + 1) e)
+    (fun x hx => by rw [List.eq_of_mem_replicate hx]; exact hp) {} rfl (Or.inl rfl)).1
+  rw [List.map_replicate] at hr
+  constructor
+  · unfold acceptRun
+    rw [hd]
+    exact delayAfter_succ i
+  · have happ : ∀ (evs : List AcceptEv) (s : AcceptState),
+        (acceptRunWith retryTemporary s (evs ++ [.conn])).1 =
+          (acceptStepWith retryTemporary (acceptRunWith retryTemporary s evs).1 .conn).1 := by
+      intro evs
+      induction evs with
+      | nil => intro s; simp [acceptRunWith]
+      | cons ev evs ih => intro s; simp [acceptRunWith, ih]
+    unfold acceptRun
+    rw [happ, acceptStepWith_conn _ _ hr]
+
+example : (acceptRun {} (List.replicate 9 (.err .emfile))).1.delay = 1000 ∧
+    (acceptRun {} (List.replicate 8 (.err .emfile))).1.delay = 640 := by decide
+
+/-- an error that does not pass ends the loop: `Serve` returns, the listener is closed, and from then on
+    every client is refused and no later error is seen -/
+theorem c12_permanent_accept_error_ends_loop (e : AcceptErr) (h : e.passes = false) (st : AcceptState)
+    (hst : st.returned = false) (evs : List AcceptEv) :
+    (acceptRun st (.err e :: evs)).2.head? = some (.action .ret) ∧
+      (acceptRun st (.err e :: evs)).1.returned = true ∧
+      (acceptRun st (.err e :: evs)).1.served = st.served ∧
+      ∀ o ∈ (acceptRun st (.err e :: evs)).2.tail, o = .refused ∨ o = .unseen := by
+  have hp : retryTemporary e.shape = false := by
+    cases hx : retryTemporary e.shape with
+    | false => rfl
+    | true => rw [((c12_accept_classification_table e).1).mpr hx] at h; cases h
+  obtain ⟨h1, h2⟩ := acceptRunWith_returned retryTemporary evs { st with returned := true } rfl
+  unfold acceptRun
+  rw [acceptRunWith_cons, acceptStepWith_ended _ _ _ hst hp]
+  simp only [List.head?_cons, List.tail_cons, h1, true_and]
+  exact h2
+
+example : (acceptRun {} [.conn, .err .closed, .conn, .err .emfile]).2 = [.served, .action .ret, .refused, .unseen] := by
+  decide
+
+/-- … and that is so exactly for the loops that retry every error that passes: the clause characterises
+    the predicate `Serve` may decide by -/
+theorem c12_accept_retry_predicate_iff (p : RetryPred) :
+    (∀ (es : List AcceptErr) (st : AcceptState), (∀ e ∈ es, e.passes = true) → st.returned = false → DelayOk st.delay →
+        (acceptRunWith p st (es.map .err)).1.returned = false) ↔
+      (∀ e : AcceptErr, e.passes = true → p e.shape = true) := by
+  constructor
+  · intro hall e he
+    cases hp : p e.shape with
+    | true => rfl
+    | false =>
+      have := hall [e] {} (by simpa using he) rfl (Or.inl rfl)
+      simp [acceptRunWith, acceptStepWith_ended p {} e rfl hp] at this
+  · intro hp es st hes hst hd
+    exact (acceptRunWith_retried p es (fun e he => hp e (hes e he)) st hst hd).1
+
+/-- "Temporary is deprecated, the errors worth retrying are time-outs": EMFILE is temporary and no
+    time-out — one failed `accept4` while a peer holds the descriptors, and `Serve` returns: the listener is
+    closed, the next client is refused although the descriptors are free again.  (A time-out is still retried.) -/
+theorem c12_accept_timeout_only_witness :
+    AcceptErr.emfile.passes = true ∧ retryTimeoutOnly AcceptErr.emfile.shape = false ∧
+      (acceptRunWith retryTimeoutOnly {} [.conn, .err .emfile, .conn]).2 = [.served, .action .ret, .refused] ∧
+      (acceptRunWith retryTimeoutOnly {} [.conn, .err .emfile, .conn]).1.returned = true ∧
+      (acceptRunWith retryTimeoutOnly {} [.conn, .err .deadline, .conn]).2 = [.served, .action (.retry 5), .served] ∧
+      (acceptRun {} [.conn, .err .emfile, .conn]).2 = [.served, .action (.retry 5), .served] := by decide
+
+/-! ## J. the HTTP log mode -/
+
+/-- in EVERY mode the logger is a transparent wrapper around the body it is shown: the same terminal
+    condition (regular end | error), never a byte that was not there, and a body that ends regularly byte
+    for byte as it was -/
+theorem c12_logging_transparent (m : LogMode) : Transparent (wrapBody m) := wrapBody_transparent m
+
+example : wrapBody .body { pieces := [[104, 105], [33]], ending := .clean } = { pieces := [[104, 105, 33]], ending := .clean } ∧
+    wrapBody .body { pieces := [[104, 105], [33]], ending := .err } = { pieces := [], ending := .err } ∧
+    wrapBody .headers { pieces := [[104, 105], [33]], ending := .err } = { pieces := [[104, 105], [33]], ending := .err } := by
+  decide
+
+/-- whatever sits in the path of a body — as long as it is transparent — a body that ended with an error
+    never reads back as a complete one under a framing that can tell (chunked: no last-chunk;
+    Content-Length: fewer bytes than declared) -/
+theorem c12_torn_body_never_complete_through_transparent_wrapper (w : BodyStream → BodyStream) (hw : Transparent w)
+    (fr : Framing) (b : BodyStream) (hfr : fr ≠ .eof) (herr : b.ending = .err) (hne : ∀ p ∈ (w b).pieces, p ≠ [])
+    (hcl : ∀ n, fr = .cl n → b.bytes.length < n) :
+    bodyParsesComplete fr (relayBodyWire fr (w b)) = false :=
+  torn_never_complete_through w hw fr b hfr herr hne hcl
+
+/-- THE CLAUSE, independent of the log mode: a reply body torn upstream is never written as a complete one -/
+theorem c12_torn_reply_never_complete_under_any_log_mode (m : LogMode) (fr : Framing) (b : BodyStream)
+    (hfr : fr ≠ .eof) (herr : b.ending = .err) (hne : ∀ p ∈ b.pieces, p ≠ [])
+    (hcl : ∀ n, fr = .cl n → b.bytes.length < n) :
+    bodyParsesComplete fr (relayBodyWire fr (wrapBody m b)) = false :=
+  torn_never_complete_through (wrapBody m) (wrapBody_transparent m) fr b hfr herr (wrapBody_pieces_ne m b hne) hcl
+
+example : bodyParsesComplete .chunked (relayBodyWire .chunked (wrapBody .body { pieces := [[104, 105]], ending := .err })) = false ∧
+    bodyParsesComplete .chunked (relayBodyWire .chunked (wrapBody .url { pieces := [[104, 105]], ending := .err })) = false ∧
+    relayBodyWire .chunked (wrapBody .url { pieces := [[104, 105]], ending := .err }) = [50, 13, 10, 104, 105, 13, 10] := by
+  decide
+
+/-- … and a reply body that ended regularly arrives byte for byte, in every mode and under every framing -/
+theorem c12_complete_reply_intact_under_any_log_mode (m : LogMode) (b : BodyStream) (hc : b.ending = .clean)
+    (hne : ∀ p ∈ b.pieces, p ≠ []) (next : Bytes) (n : Nat) :
+    Resp.decodeChunked (relayBodyWire .chunked (wrapBody m b) ++ next) = some (b.bytes, [], next) ∧
+      relayBodyWire (.cl n) (wrapBody m b) = b.bytes ∧ relayBodyWire .eof (wrapBody m b) = b.bytes := by
+  obtain ⟨he, _, hb⟩ := wrapBody_transparent m b
+  have hend : relayEnd (wrapBody m b).ending = .returns := by rw [he, hc]; rfl
+  have hbytes : (wrapBody m b).pieces.flatten = b.bytes := hb hc
+  have h1 := decodeChunked_terminated (wrapBody m b).pieces (wrapBody_pieces_ne m b hne) next
+  rw [hbytes] at h1
+  refine ⟨?_, ?_, ?_⟩
+  · simpa [relayBodyWire, hend, handlerBodyWire] using h1
+  · simp [relayBodyWire, handlerBodyWire, hbytes]
+  · simp [relayBodyWire, handlerBodyWire, hbytes]
+
+/-- the request side: an upload whose body ended with an error (the client closed or reset inside it) is
+    never forwarded as a complete request, whatever the log mode -/
+theorem c12_torn_upload_never_complete (m : LogMode) (fr : Framing) (b : BodyStream)
+    (hfr : fr ≠ .eof) (herr : b.ending = .err) (hne : ∀ p ∈ b.pieces, p ≠ [])
+    (hcl : ∀ n, fr = .cl n → b.bytes.length < n) :
+    bodyParsesComplete fr (forwardedUpload m fr b) = false :=
+  torn_never_complete_through (fun b => b) transparent_id fr b hfr herr hne hcl
+
+example : bodyParsesComplete (.cl 10) (forwardedUpload .body (.cl 10) { pieces := tornPieces 4, ending := .err }) = false ∧
+    bodyParsesComplete .chunked (forwardedUpload .body .chunked { pieces := tornPieces 4, ending := .err }) = false ∧
+    bodyParsesComplete .chunked (forwardedUpload .body .chunked { pieces := tornPieces 4, ending := .clean }) = true := by
+  decide
+
+/-- "keep the data read before an error so that a message that broke off still shows up in the log": the
+    snapshot that always puts a replaying reader back is NOT transparent — the two bytes of a torn chunked
+    body go out followed by the last-chunk: a complete body to the RFC 7230 reader (the code as it is writes
+    nothing behind the head and closes) -/
+theorem c12_snapshot_drop_error_witness :
+    ¬ Transparent (wrapBodyWith snapshotDropErr .body) ∧
+      relayBodyWire .chunked (wrapBodyWith snapshotDropErr .body { pieces := [[104, 105]], ending := .err }) =
+        [50, 13, 10, 104, 105, 13, 10, 48, 13, 10, 13, 10] ∧
+      bodyParsesComplete .chunked
+        (relayBodyWire .chunked (wrapBodyWith snapshotDropErr .body { pieces := [[104, 105]], ending := .err })) = true ∧
+      relayBodyWire .chunked (wrapBody .body { pieces := [[104, 105]], ending := .err }) = [] ∧
+      bodyParsesComplete .chunked (relayBodyWire .chunked (wrapBody .body { pieces := [[104, 105]], ending := .err })) = false := by
+  refine ⟨?_, by decide, by decide, by decide, by decide⟩
+  intro h
+  have := (h { pieces := [[104, 105]], ending := .err }).1
+  exact absurd this (by decide)
+
+/-- the logger in the response path of an exchange is the fault it was, except that in mode `body` no byte
+    of a torn body is relayed: the theorems of C apply under every mode -/
+theorem c12_logged_stream_eq (m : LogMode) (f : Fault) (ex : Exchange) :
+    clientStreamLogged m f ex = clientStream (loggedFault m f) ex := clientStreamLogged_eq m f ex
+
+example : clientStreamLogged .body (.bodyCut 5 false 0) { id := 1, headLen := 47, framing := .chunked, bodyLen := 10 } =
+      .prefixThenClose 1 .chunked 0 false .fin ∧
+    clientStreamLogged .headers (.bodyCut 5 false 0) { id := 1, headLen := 47, framing := .chunked, bodyLen := 10 } =
+      .prefixThenClose 1 .chunked 5 false .fin := by decide
+
+/-- `c12_chunked_cut_is_unterminated` with the logger in the path: under every mode a chunked reply torn in
+    its body reaches an HTTP/1.1 client without the terminating chunk, followed by the close -/
+theorem c12_logged_chunked_cut_is_unterminated (m : LogMode) (k lost : Nat) (r : Bool) (ex : Exchange)
+    (hk : ex.kind ≠ .connect) (hfr : ex.framing = .chunked) (hm : (ex.clientMinor == 0) = false) :
+    (∃ n, clientStreamLogged m (.bodyCut k r lost) ex = .prefixThenClose ex.id .chunked n false .fin) ∧
+      (clientStreamLogged m (.bodyCut k r lost) ex).parsesComplete = false ∧
+      (clientStreamLogged m (.bodyCut k r lost) ex).keepsAlive = false := by
+  have hl : ∃ l, loggedFault m (.bodyCut k r lost) = .bodyCut k r l := by cases m <;> exact ⟨_, rfl⟩
+  obtain ⟨l, hl⟩ := hl
+  rw [c12_logged_stream_eq, hl]
+  obtain ⟨h1, h2⟩ := c12_chunked_cut_is_unterminated k l r ex hk hfr hm
+  exact ⟨⟨_, h1⟩, h2, by rw [h1]; rfl⟩
+
+/-- `c12_truncation_detectable_partial` under every log mode -/
+theorem c12_logged_truncation_detectable_partial (m : LogMode) (f : Fault) (ex : Exchange) (hfr : relayFraming ex ≠ .eof)
+    (hwf : f.wf ex = true) (ht : (clientStreamLogged m f ex).truncated ex = true) :
+    (clientStreamLogged m f ex).parsesComplete = false := by
+  rw [c12_logged_stream_eq] at ht ⊢
+  exact c12_truncation_detectable_partial (loggedFault m f) ex hfr (loggedFault_wf m f ex hwf) ht
+
+/-- `c12_clean_outcome_partial` under every log mode -/
+theorem c12_logged_clean_outcome_partial (m : LogMode) (f : Fault) (ex : Exchange) (hfr : relayFraming ex ≠ .eof)
+    (hst : ∀ s, f.rejectionStatus = some s → 300 ≤ s ∧ s < 600)
+    (hwf : f.wf ex = true) : cleanOutcome ex (clientStreamLogged m f ex) = true := by
+  rw [c12_logged_stream_eq]
+  exact c12_clean_outcome_partial (loggedFault m f) ex hfr
+    (fun s hs => hst s (by rw [← loggedFault_rejectionStatus m f]; exact hs)) (loggedFault_wf m f ex hwf)
+
+example : relayFraming { id := 1, headLen := 47, framing := .chunked, bodyLen := 10 } ≠ .eof ∧
+    (Fault.bodyCut 3 true 1).wf { id := 1, headLen := 47, framing := .chunked, bodyLen := 10 } = true ∧
+    cleanOutcome { id := 1, headLen := 47, framing := .chunked, bodyLen := 10 }
+      (clientStreamLogged .body (.bodyCut 3 true 1) { id := 1, headLen := 47, framing := .chunked, bodyLen := 10 }) = true := by
+  decide
+
+/-- the handler variant under every log mode: `c12_handler_torn_body_never_complete` with the logger in the path -/
+theorem c12_handler_logged_torn_body_never_complete (m : LogMode) (ex : Exchange) (k lost : Nat) (r : Bool)
+    (hk : ex.kind ≠ .connect) (hfr : handlerFraming ex ≠ .eof) (hwf : (Fault.bodyCut k r lost).wf ex = true)
+    (herr : ex.framing = .eof → r = true) :
+    (handlerStreamLogged m (.bodyCut k r lost) ex).parsesComplete = false ∧
+      (handlerStreamLogged m (.bodyCut k r lost) ex).keepsAlive = false := by
+  have hwf' := loggedFault_wf m (.bodyCut k r lost) ex hwf
+  have hl : ∃ l, loggedFault m (.bodyCut k r lost) = .bodyCut k r l := by cases m <;> exact ⟨_, rfl⟩
+  obtain ⟨l, hl⟩ := hl
+  unfold handlerStreamLogged
+  rw [hl] at hwf' ⊢
+  exact c12_handler_torn_body_never_complete ex k l r hk hfr hwf' herr
+
+/-- what a body-logging step may do, characterised: a torn reply is never written as a complete message —
+    for every exchange, cut point and framing that can tell — exactly when the step keeps the error of every
+    torn body (however many of its bytes it replays) -/
+theorem c12_snapshot_policy_iff (s : Snapshot) :
+    (∀ (ex : Exchange) (k lost : Nat) (r : Bool), ex.kind ≠ .connect → relayFraming ex ≠ .eof →
+        (Fault.bodyCut k r lost).wf ex = true →
+        (clientStreamLoggedWith s .body (.bodyCut k r lost) ex).parsesComplete = false) ↔
+      (∀ k, (s { pieces := tornPieces k, ending := .err }).ending = .err) := by
+  constructor
+  · intro h k
+    cases he : (s { pieces := tornPieces k, ending := .err }).ending with
+    | err => rfl
+    | clean =>
+      have := h { id := 1, headLen := 47, framing := .chunked, bodyLen := k } k 0 false (by simp) (by simp [relayFraming])
+        (by simp [Fault.wf])
+      simp [clientStreamLoggedWith, loggedBodyCutWith, wrapBodyWith, originBody, he, replayedObs,
+        ClientObs.parsesComplete] at this
+  · intro hs ex k lost r hk hfr hwf
+    obtain ⟨hne, hch⟩ := relayFraming_ne_eof hfr
+    have hk' : (ex.kind == ReqKind.connect) = false := by
+      cases h : ex.kind <;> simp_all
+    have hob : originBody ex k r = { pieces := tornPieces k, ending := .err } := by
+      have := originBody_ending_err hne k r
+      unfold originBody at this ⊢
+      simp only at this
+      rw [this]
+    simp only [clientStreamLoggedWith, hk', Bool.false_eq_true, if_false, loggedBodyCutWith, wrapBodyWith, hob, hs k]
+    cases hf : ex.framing with
+    | eof => exact absurd hf hne
+    | chunked => simp [bodyCutObs, hf, hch hf, ClientObs.parsesComplete]
+    | cl n =>
+      simp only [Fault.wf, hf, Bool.and_eq_true, beq_iff_eq, decide_eq_true_eq] at hwf
+      simp only [bodyCutObs, hf, ClientObs.parsesComplete, beq_eq_false_iff_ne, ne_eq]
+      omega
+
+/-- the error-dropping snapshot on an exchange: in mode `body` a chunked reply torn after 5 of 10 bytes
+    (FIN or RST) reaches the client as a complete chunked message of 5 bytes on a connection that stays in
+    service — truncated, complete to every parser, reusable; the other modes and Content-Length framing do
+    not show it -/
+theorem c12_logging_drop_error_witness :
+    (Fault.bodyCut 5 false 0).wf { id := 1, headLen := 47, framing := .chunked, bodyLen := 10 } = true ∧
+      clientStreamLoggedWith snapshotDropErr .body (.bodyCut 5 false 0) { id := 1, headLen := 47, framing := .chunked, bodyLen := 10 } =
+        .complete 1 .chunked 5 true ∧
+      clientStreamLoggedWith snapshotDropErr .body (.bodyCut 5 true 0) { id := 1, headLen := 47, framing := .chunked, bodyLen := 10 } =
+        .complete 1 .chunked 5 true ∧
+      cleanOutcome { id := 1, headLen := 47, framing := .chunked, bodyLen := 10 }
+        (clientStreamLoggedWith snapshotDropErr .body (.bodyCut 5 false 0) { id := 1, headLen := 47, framing := .chunked, bodyLen := 10 }) = false ∧
+      clientStreamLoggedWith snapshotDropErr .headers (.bodyCut 5 false 0) { id := 1, headLen := 47, framing := .chunked, bodyLen := 10 } =
+        .prefixThenClose 1 .chunked 5 false .fin ∧
+      clientStreamLoggedWith snapshotDropErr .body (.bodyCut 5 false 0) { id := 1, headLen := 47, framing := .cl 10, bodyLen := 10 } =
+        .prefixThenClose 1 (.cl 10) 5 false .fin ∧
+      clientStreamLogged .body (.bodyCut 5 false 0) { id := 1, headLen := 47, framing := .chunked, bodyLen := 10 } =
+        .prefixThenClose 1 .chunked 0 false .fin := by decide
 
 end C12
 end FwdVerif
